@@ -459,6 +459,42 @@ Section PacingProofs.
         unfold vnow. lia.
     - eapply Forall_impl; [|exact B]. cbn beta. intros aw [? _]. lia.
   Qed.
+  (** An interrupted request writes a prefix of what the uninterrupted one writes, at the same instants. *)
+  Lemma pace_loop_c_prefix cancelled ts nowMS startMS : ts <> 0 -> forall cs k avail l,
+    pace_loop clock sleep ts nowMS startMS k avail cs = Ok l ->
+    exists n, pace_loop_c clock sleep cancelled ts nowMS startMS k avail cs = firstn n l.
+  Proof.
+    intros Hts. induction cs as [|c r IH]; intros k avail l H.
+    - exists 0%nat. reflexivity.
+    - cbn [pace_loop pace_loop_c] in *. destruct (cancelled k); [exists 0%nat; reflexivity|].
+      unfold go_div in H. destruct (ts =? 0) eqn:E0; [lia|]. cbn [bind] in H.
+      set (availMS := Z.quot ((avail + c_dur c) * 1000) ts) in *.
+      destruct (availMS <? nowMS).
+      + destruct (pace_loop clock sleep ts nowMS startMS (S k) (avail + c_dur c) r) as [l'| |] eqn:EP; cbn [bind] in H; try discriminate.
+        injection H as <-. destruct (IH _ _ _ EP) as (n & ->). exists (S n). reflexivity.
+      + destruct (availMS <? clock k - startMS + nowMS).
+        * destruct (pace_loop clock sleep ts nowMS startMS (S (S k)) (avail + c_dur c) r) as [l'| |] eqn:EP; cbn [bind] in H; try discriminate.
+          injection H as <-. destruct (IH _ _ _ EP) as (n & ->). exists (S n). reflexivity.
+        * destruct (pace_loop clock sleep ts nowMS startMS (S (sleep (S k) (availMS - (clock k - startMS + nowMS)))) (avail + c_dur c) r) as [l'| |] eqn:EP; cbn [bind] in H; try discriminate.
+          injection H as <-. destruct (IH _ _ _ EP) as (n & ->). exists (S n). reflexivity.
+  Qed.
+
+  Lemma never_early_interrupted cancelled fs st newTime newNr newDur C cs ts nowMS startTimeS k0 :
+    C < two63 -> 0 < ts -> 0 <= startTimeS -> wf_input fs newTime ->
+    chunkSegment fs st newTime newNr newDur C = Ok cs ->
+    exists n,
+      let ws := pace_loop_c clock sleep cancelled ts nowMS (clock k0) (S k0) (newTime + startTimeS * ts) cs in
+      Forall2 (fun e aw => Z.quot (e * 1000) ts <= vnow clock nowMS k0 (snd aw))
+              (firstn n (true_ends (newTime + startTimeS * ts) cs)) ws.
+  Proof.
+    intros HC Hts Hst Hwf H.
+    destruct (never_early _ _ _ _ _ _ _ ts nowMS startTimeS k0 HC Hts Hst Hwf H) as (ws & E & F & _).
+    unfold writeChunked in E.
+    destruct (pace_loop_c_prefix cancelled ts nowMS (clock k0) ltac:(lia) cs (S k0) _ ws E) as (n & ->).
+    exists n. cbv zeta. clear - F. revert n. induction F as [|e w te ws' H1 F IH]; intros n.
+    - destruct n; constructor.
+    - destruct n as [|n]; [constructor|]. cbn [firstn]. constructor; [exact H1|apply IH].
+  Qed.
 End PacingProofs.
 
 (** *** too early *)
